@@ -22,6 +22,8 @@ theorem inv_step {s s' : State} {op : Op} (hi : Inv s) (h : step s op = .ok s') 
   | ldrop l => exact inv_ldrop hi h
   | mk a kind dt it n v => exact inv_mk hi h
   | copy a b full => exact inv_copy hi h
+  | lmove d src => exact inv_lmove hi h
+  | lvec k => exact inv_lvec hi h
 
 theorem inv_run {ops : List Op} {s s' : State} (hi : Inv s) (h : run s ops = .ok s') : Inv s' := by
   induction ops generalizing s with
